@@ -906,20 +906,26 @@ int main(int argc, char** argv) {
     // work units: mode x first two stream bytes
     vector<Unit> units;
     int na = static_cast<int>(alpha.size());
-    // --deep D --deepmodes S0a0p0,S0a1p0 : these mode combinations are explored to length D, the others to --len
+    // --deepmodes S0a1p0:7,S1a1p0:6,S0a0p0 : these mode combinations are explored to the given length
+    // (or to --deep when no length is given), all others to --len
     int deep = static_cast<int>(A.getInt("deep", len));
     string deepModes = "," + A.get("deepmodes", "") + ",";
     if (deep > 12) deep = 12;
     auto lenOf = [&](int st, int arb, int pat) {
-      return deepModes.find("," + modeText(Mode{st, arb, pat, false}) + ",") != string::npos ? std::max(deep, len) : len;
+      size_t p = deepModes.find("," + modeText(Mode{st, arb, pat, false}));
+      if (p == string::npos) return len;
+      p += 7;
+      int l = deep;
+      if (deepModes[p] == ':') l = atoi(deepModes.c_str() + p + 1);
+      else if (deepModes[p] != ',') return len;
+      if (l > 12) l = 12;
+      return std::max(l, len);
     };
     // the deep (expensive) units first so that they spread evenly over the partitions
-    for (int pass = 0; pass < 2; pass++)
-      for (int b0 = 0; b0 < na; b0++) for (int b1 = 0; b1 < na; b1++)
-        for (int st = 0; st < core::NSTART; st++) for (int arb = 0; arb < 2; arb++) for (int pat = 0; pat < core::NPAT; pat++) {
-          int l = lenOf(st, arb, pat);
-          if ((pass == 0) == (l > len)) units.push_back({st, arb, pat, b0, b1, l});
-        }
+    for (int b0 = 0; b0 < na; b0++) for (int b1 = 0; b1 < na; b1++)
+      for (int st = 0; st < core::NSTART; st++) for (int arb = 0; arb < 2; arb++) for (int pat = 0; pat < core::NPAT; pat++)
+        units.push_back({st, arb, pat, b0, b1, lenOf(st, arb, pat)});
+    std::stable_sort(units.begin(), units.end(), [](const Unit& a, const Unit& b) { return a.len > b.len; });
     if (len < 2) { units.clear(); for (int st = 0; st < core::NSTART; st++) for (int arb = 0; arb < 2; arb++) for (int pat = 0; pat < core::NPAT; pat++) units.push_back({st, arb, pat, -1, -1, len}); }
     if (san) {
       g_progress = static_cast<Progress*>(mmap(nullptr, sizeof(Progress), PROT_READ | PROT_WRITE, MAP_SHARED | MAP_ANONYMOUS, -1, 0));
